@@ -271,4 +271,58 @@ func TestVerifC09H(t *testing.T) {
 			c09Explore(r, c.max, c.nc, c.depth, c.steps)
 		}
 	}
+	// isolation and the burst bound with many other clients in between (tables of buckets have
+	// bounds, sweeps and high-water marks that a handful of clients never reaches)
+	crowds := []int{100, 10001}
+	if vres.Thorough() {
+		crowds = []int{100, 1000, 4097, 10001, 65537, 200000}
+	}
+	for i, n := range crowds {
+		if vh.MyShard(len(cfgs) + i) {
+			c09Crowd(r, n)
+		}
+	}
+}
+
+// c09Crowd: a client spends part of its burst, n other clients arrive once each, the client
+// goes on: what it is admitted altogether within one refill period is at most max_tokens, and
+// exactly what it is admitted without the crowd.
+func c09Crowd(r *vres.Report, n int) {
+	start := time.Now()
+	var evals int64
+	for _, max := range []int{2, 5} {
+		for spent := 0; spent <= max; spent++ {
+			admitted, alone := 0, 0
+			run := func(crowd int) int {
+				got := 0
+				s := vrt.Run(vrt.Options{Horizon: 1 << 30}, func(s *vrt.Sched) {
+					rl := NewTokenBucketRateLimiter(max, time.Hour)
+					for i := 0; i < spent; i++ {
+						if rl.Allow("10.0.0.1") {
+							got++
+						}
+					}
+					for i := 0; i < crowd; i++ {
+						rl.Allow(fmt.Sprintf("172.%d.%d.%d", 16+i>>16&15, i>>8&255, i&255))
+						evals++
+					}
+					for i := 0; i < max+2; i++ {
+						if rl.Allow("10.0.0.1") {
+							got++
+						}
+					}
+				})
+				if s.Verdict.Kind != vrt.OK {
+					r.Violate("C09/crowd/"+s.Verdict.Kind.String(), s.Verdict.Detail, n, nil)
+				}
+				return got
+			}
+			admitted, alone = run(n), run(0)
+			if admitted > max || admitted != alone {
+				r.Violate("C09/isolation-broken/many-clients", fmt.Sprintf("max_tokens=%d, refill 1h: a client that had spent %d of its burst was admitted %d times altogether with %d other clients arriving in between, %d times without them (bound %d)", max, spent, admitted, n, alone, max), n, map[string]interface{}{"engine": "H", "test": "TestVerifC09H", "crowd": n, "max": max, "spent": spent})
+			}
+		}
+	}
+	r.AddScenario(vres.Scenario{Name: fmt.Sprintf("limiter-crowd-of-%d", n), Engine: "H", Executions: evals, States: 9, Transitions: evals, Outcomes: 1,
+		Bound: fmt.Sprintf("max_tokens {2,5} x every number of tokens already spent x %d other clients arriving once each in between", n), Exhaustive: true, Extra: map[string]interface{}{"wall_s": time.Since(start).Seconds()}})
 }
